@@ -53,7 +53,12 @@ func (e *Engine) checkEntity(s *Sys, me *MEnt, _ string) *Violation {
 			return e.v(s, "gc-integrity", "entity %v type %d: referenced data missing or corrupt (canary %d, want %d)", h, t, leU64(val), leU64(me.Val[t]))
 		}
 		if !bytes.Equal(val, me.Val[t]) {
-			return e.v(s, "value", "entity %v type %d: value %x, model %x", h, t, val, me.Val[t])
+			v := e.v(s, "value", "entity %v type %d: value %x, model %x", h, t, val, me.Val[t])
+			if e.M.relOf(me.Cs) >= 0 && allZero(me.Val[t]) {
+				// a component that must read zero shows data: a value turning up under a relation target it was never assigned to
+				v.Also = append(v.Also, "stale-under-target")
+			}
+			return v
 		}
 	}
 	rel := e.M.relOf(me.Cs)
@@ -64,6 +69,15 @@ func (e *Engine) checkEntity(s *Sys, me *MEnt, _ string) *Violation {
 		}
 	}
 	return nil
+}
+
+func allZero(b []byte) bool {
+	for _, x := range b {
+		if x != 0 {
+			return false
+		}
+	}
+	return true
 }
 
 func override(v *Violation, class string) *Violation {
@@ -134,6 +148,9 @@ func (e *Engine) checkAllRaw(s *Sys) *Violation {
 	q := w.Query(ecs.All())
 	cnt := q.Count()
 	l := collect(&q)
+	if s.Name == "primary" {
+		e.logEnts("all", l)
+	}
 	set, dup := toSet(l)
 	if dup || cnt != len(l) || len(set) != len(m.Alive) {
 		return e.v(s, "alive-set", "Query(All()): %d visited (dup=%v), Count()=%d, model has %d alive", len(l), dup, cnt, len(m.Alive))
@@ -193,6 +210,9 @@ func (e *Engine) checkSlot(s *Sys, slot int) *Violation {
 	q := w.Query(s.Filters[slot])
 	cnt := q.Count()
 	l := collect(&q)
+	if s.Name == "primary" {
+		e.logEnts("slot", l)
+	}
 	set, dup := toSet(l)
 	if dup {
 		return e.v(s, "query-set", "filter %s visits an entity twice", spec)
@@ -222,18 +242,55 @@ func (e *Engine) checkSlot(s *Sys, slot int) *Violation {
 		q2 := w.Query(s.Cached[slot])
 		cnt2 := q2.Count()
 		l2 := collect(&q2)
+		if s.Name == "primary" {
+			e.logEnts("cached", l2)
+		}
 		set2, dup2 := toSet(l2)
-		if dup2 || cnt2 != len(l2) || len(set2) != len(set) {
-			return e.v(s, "cache-diff", "filter %s: registered visits %d (dup=%v, Count=%d), original %d", spec, len(l2), dup2, cnt2, len(l))
+		if dup2 || cnt2 != len(l2) {
+			v := e.v(s, "cache-diff", "filter %s: registered visits %d (dup=%v, Count=%d), original %d", spec, len(l2), dup2, cnt2, len(l))
+			v.Also = append(v.Also, "query-set") // C03 covers registered filters too: an entity visited twice / Count wrong
+			return v
+		}
+		for h := range set2 {
+			if !set[h] {
+				return e.cachedExtra(s, spec, h, len(l2), len(l))
+			}
+		}
+		if len(set2) != len(set) {
+			v := e.v(s, "cache-diff", "filter %s: registered visits %d, original %d", spec, len(l2), len(l))
+			v.Also = append(v.Also, "query-set")
+			return v
 		}
 		for h := range set {
 			if !set2[h] {
 				return e.v(s, "cache-diff", "filter %s: registered misses %v selected by the original", spec, h)
 			}
 		}
+		for h := range set2 {
+			if !set[h] {
+				return e.cachedExtra(s, spec, h, len(l2), len(l))
+			}
+		}
 		e.St.Probes["cached-compared"]++
 	}
 	return nil
+}
+
+// cachedExtra: the registered filter selects an entity the original does not.
+func (e *Engine) cachedExtra(s *Sys, spec *FilterSpec, h ecs.Entity, n2, n1 int) *Violation {
+	v := e.v(s, "cache-diff", "filter %s: registered selects %v which the original does not (registered visits %d, original %d)", spec, h, n2, n1)
+	me := e.M.ByH[h]
+	if me == nil {
+		v.Also = append(v.Also, "query-set")
+		return v
+	}
+	if _, may := spec.Match(e.M, me); !may {
+		v.Also = append(v.Also, "query-set") // C03: a query through a registered filter visits a non-matching entity
+		if spec.Kind == "relation" && e.M.relOf(me.Cs) >= 0 && me.Target != spec.Target {
+			v.Also = append(v.Also, "leak-under-target") // C05/C06: entity shows up under a target it was not assigned to
+		}
+	}
+	return v
 }
 
 // census: for every relation type and every target used, the relation filter selects exactly the model's children.
@@ -358,6 +415,14 @@ func (e *Engine) checkEvents(s *Sys, class string) *Violation {
 	s.Events = nil
 	if s.Name == "primary" {
 		e.lastGot = got
+		e.log.Str("events")
+		for i := range got {
+			g := &got[i]
+			e.logEnt(g.Ent)
+			e.log.U64(uint64(g.Added)<<32 | uint64(g.Removed))
+			e.log.U64(uint64(g.Types)<<16 | uint64(uint8(g.OldRel+1))<<8 | uint64(uint8(g.NewRel+1)))
+			e.logEnt(g.OldTarget)
+		}
 	}
 	exp := append([]MEv{}, e.expEvents...)
 	// per-event checks at delivery time
